@@ -19,10 +19,10 @@ LOCKWRAPS = " -Wl,--wrap=pthread_rwlock_wrlock,--wrap=pthread_rwlock_rdlock,--wr
 CONC = drv("conc", ["props/conc.cpp"], ldflags="-lrapidcheck" + LOCKWRAPS)
 CONC_TSAN = drv("conc_tsan", ["props/conc.cpp"], flavour="tsan", ldflags="-lrapidcheck" + LOCKWRAPS)
 ALLOCFAIL = drv("allocfail", ["props/allocfail.cpp"])
-WRAPS = " -Wl,--wrap=lrtr_get_monotonic_time,--wrap=sleep,--wrap=lrtr_dbg"
+WRAPS = " -Wl,--wrap=lrtr_get_monotonic_time,--wrap=sleep,--wrap=lrtr_dbg,--wrap=pthread_join"
 INTERVALS = drv("intervals", ["props/intervals.cpp"])
 CONV_FUZZ = {"name": "conv_fuzz", "sources": ["props/conv_fuzz.cpp", "engine/convsim.cpp", "shim/shim.c"], "flavour": "fuzz", "libfuzzer": True,
-             "ldflags": " -Wl,--wrap=lrtr_get_monotonic_time,--wrap=sleep,--wrap=lrtr_dbg" + LOCKWRAPS,
+             "ldflags": WRAPS + LOCKWRAPS,
              "deps": ["engine/convsim.hpp", "engine/convsim_model.inc", "engine/convsim_mock.inc", "engine/convsim_run.inc", "engine/judge.hpp",
                       "engine/cache.hpp", "engine/script.hpp", "engine/wire.hpp", "engine/convsim_battery.inc", "engine/nontrivial.hpp"]}
 CONV = drv("conv", ["props/conv.cpp", "engine/convsim.cpp"], ldflags="-lrapidcheck" + WRAPS + LOCKWRAPS,
@@ -370,7 +370,7 @@ CHECKS = {
                     "thorough": {"procs": 16, "rc": (8000, 100), "timeout": 7200}},
                    {"type": "libfuzzer", "driver": CONV_FUZZ, "replay_driver": CONV,
                     "quick": {"procs": 4, "runs": 6000, "max_len": 600},
-                    "thorough": {"procs": 16, "runs": 400000, "max_len": 2048, "timeout": 7200}}],
+                    "thorough": {"procs": 16, "runs": 250000, "max_len": 2048, "timeout": 7200}}],
     },
 }
 
